@@ -26,6 +26,14 @@ CHECKS = {
    technique="stateful property-based testing in the deterministic daemon simulation: generated register / re-register / conflict / unregister / shutdown sequences, wire-level oracle on goodbyes and silence",
    text="Exploration: 3e4 (quick) / 8e5 (thorough) generated op sequences over 1-3 services and 1-3 interfaces. Oracle: unregister reply vs a model of registrations; goodbye exactly on the (interface, family) pairs where the service was announced since its last register, complete, under the last announced names, repeated 120 ms later; nothing with a positive TTL afterwards; other services still answered.",
    note="Trusted: simulation hooks and refdns. Services are recognised on the wire by a TXT attribute id=<n>. Conflicts are injected only while the single current registration is unannounced."),
+ "C06": dict(engine=E3, design="6/C06",
+   technique="stateful property-based testing in the deterministic daemon simulation with a reference responder model: generated register/re-register/unregister/conflict histories and injected queries; every response compared with must/may/must-not record sets",
+   text="Exploration: 2.5e4 (quick) / 7e5 (thorough) generated histories with ~4 injected queries each (1-4 questions over type, subtype, meta, instance, original name, host, unknown; all question types; case variants; known answers; IPv4/IPv6; port 5353 or legacy). The response (or silence) in the iteration that handled the query is compared with a reference responder written from the statement: answers == must + subset(may), required additionals present, nothing else, TTLs, cache-flush bits, transport, legacy unicast rules.",
+   note="Trusted: simulation hooks, refdns, the reference responder (harness/src/props/responder.rs). Open choices of the statement are in `may` (listed in evidence assumptions)."),
+ "C10": dict(engine=E2+"+"+E3, design="6/C10",
+   technique="exhaustive boundary grid over the suppression predicate (component facade) plus stateful property-based testing in the daemon simulation on the responder side (C06 scenario with boundary known answers) and on the querier side (browse queries of a daemon holding PTRs of all ages)",
+   text="Exploration: the complete grid 5 record kinds x 12 responder TTLs x ~8 known TTLs around the half x 5 difference kinds (2350 points, enumerated), 2e4 responder histories with boundary known answers, and 1.2e4 querier histories in which every outgoing browse query's known-answer list is judged (only held shared records with at most half their life gone, remaining TTL +-1 s, query on every interface).",
+   note="Trusted: simulation hooks, refdns, reference responder. Exactly half the TTL is left open on both sides; letter-case-only differences leave suppression open."),
 }
 
 def check_entry(pid, c):
